@@ -199,7 +199,10 @@ def two_measure_reference(returned, features, primary, second, assoc, n_best, th
     sel_r, amb_r = greedy(feats, primary, assoc, thresh, n_best)
     sel_k, amb_k = greedy(feats, {f: second[f] for f in feats}, assoc, thresh, n_best)
     out.label("two-measures")
-    if amb_r or amb_k:
+    # an infinite Kruskal-Wallis statistic (constant feature with missing values) does not stay below the gate
+    # threshold, so the second measure is never evaluated for it: outside what this reference models
+    infinite = any(math.isinf(v) for v in second.values())
+    if amb_r or amb_k or infinite:
         out.label("two-measures-ambiguous")
         if len(set(returned)) != len(returned) or any(f not in features for f in returned) or len(returned) > 2 * n_best:
             out.violate(f"{tag}:two-measures:malformed-result", f"{returned}")
